@@ -3,7 +3,8 @@
    printed by Coq and closed by `exact`. *)
 From Coq Require Import List ZArith String.
 From SismicProofs Require Import IOProofs.
-From Sismic Require Import Base Chart Edit IO IOCorr.
+From SismicProofs Require CorollaryProofs.
+From Sismic Require Import Base Chart Edit IO IOCorr Interp.
 Import ListNotations.
 Open Scope string_scope.
 
@@ -74,3 +75,62 @@ Theorem schema_export_thm :
                [("root state", YMap (enode (S (Datatypes.length (c_states c))) c r))])).
 Proof. exact schema_export. Qed.
 Print Assumptions schema_export_thm.
+
+(* BEHAVIOUR. The re-imported statechart behaves identically: for a valid statechart whose code is already in stripped form, every input history (any sequence of queue / execute_once / execute from a fresh interpreter) produces the same run on the original and on the re-import, up to the renumbering of transitions (composition of the round trip with C07_decl_order) *)
+Theorem C11_behaviour_fresh_thm :
+  forall c : chart,
+         CorollaryProofs.IOP.valid_for_export_b c = true ->
+         CorollaryProofs.stripped c ->
+         exists (c' : chart) (pi : nat -> nat),
+           import_pipeline (export_to_dict c) = Some c' /\
+           (forall (ctx X : Type) (exec : call ctx -> ctx -> option (ctx * list event))
+              (eval : call ctx -> ctx -> option bool) (emit : Z -> meta -> X -> X * option err),
+            (forall (cl : call ctx) (x : ctx), exec (CorollaryProofs.C7.cmap pi cl) x = exec cl x) ->
+            (forall (cl : call ctx) (x : ctx), eval (CorollaryProofs.C7.cmap pi cl) x = eval cl x) ->
+            (forall (t : Z) (m : meta) (x : X) (e : err),
+             snd (emit t m x) = Some e -> CorollaryProofs.C7.emap pi e = e) ->
+            forall (ops : list CorollaryProofs.C7.op) (id : nat) (now : Z) (ignore : bool) (c0 : ctx) (x : X),
+            CorollaryProofs.C7.ops_outcome pi
+              (CorollaryProofs.C7.run_ops ctx X exec eval emit c ops
+                 {| m_i := init_istate id now ignore c0; m_x := x; m_tr := [] |})
+              (CorollaryProofs.C7.run_ops ctx X exec eval emit c' ops
+                 {| m_i := init_istate id now ignore c0; m_x := x; m_tr := [] |})).
+Proof. exact CorollaryProofs.C11_behaviour_fresh. Qed.
+Print Assumptions C11_behaviour_fresh_thm.
+
+(* ... without the stripped-form hypothesis: the re-import behaves as the original with its code stripped *)
+Theorem C11_behaviour_strip_thm :
+  forall c : chart,
+         CorollaryProofs.IOP.valid_for_export_b c = true ->
+         exists (c' : chart) (pi : nat -> nat),
+           import_pipeline (export_to_dict c) = Some c' /\
+           CorollaryProofs.C7.perm_chart (CorollaryProofs.strip_chart c) c' /\
+           CorollaryProofs.C7.chart_perm (CorollaryProofs.strip_chart c) c' pi /\
+           (forall (ctx X : Type) (exec : call ctx -> ctx -> option (ctx * list event))
+              (eval : call ctx -> ctx -> option bool) (emit : Z -> meta -> X -> X * option err),
+            (forall (cl : call ctx) (x : ctx), exec (CorollaryProofs.C7.cmap pi cl) x = exec cl x) ->
+            (forall (cl : call ctx) (x : ctx), eval (CorollaryProofs.C7.cmap pi cl) x = eval cl x) ->
+            (forall (t : Z) (m : meta) (x : X) (e : err),
+             snd (emit t m x) = Some e -> CorollaryProofs.C7.emap pi e = e) ->
+            forall (ops : list CorollaryProofs.C7.op) (s1 s2 : mstate ctx X),
+            CorollaryProofs.C7.run_equiv pi s1 s2 ->
+            CorollaryProofs.C7.ops_outcome pi
+              (CorollaryProofs.C7.run_ops ctx X exec eval emit (CorollaryProofs.strip_chart c) ops s1)
+              (CorollaryProofs.C7.run_ops ctx X exec eval emit c' ops s2)).
+Proof. exact CorollaryProofs.C11_behaviour_strip. Qed.
+Print Assumptions C11_behaviour_strip_thm.
+
+(* (kept on purpose) the hypothesis on event names is needed: the importer strips event names, so a transition on the event " e " no longer reacts to it after a round trip (such names cannot be written in the documented YAML format; DESIGN.md section 8(12)) *)
+Theorem C11_behaviour_unstripped_refuted_thm :
+  exists (c c' : chart) (ops : list CorollaryProofs.C7.op),
+           CorollaryProofs.IOP.valid_for_export_b c = true /\
+           import_pipeline (export_to_dict c) = Some c' /\
+           (forall pi : nat -> nat,
+            ~
+            CorollaryProofs.C7.ops_outcome pi
+              (CorollaryProofs.C7.run_ops nat nat CorollaryProofs.exec1 CorollaryProofs.eval1
+                 CorollaryProofs.emit1 c ops CorollaryProofs.init1)
+              (CorollaryProofs.C7.run_ops nat nat CorollaryProofs.exec1 CorollaryProofs.eval1
+                 CorollaryProofs.emit1 c' ops CorollaryProofs.init1)).
+Proof. exact CorollaryProofs.C11_behaviour_unstripped_refuted. Qed.
+Print Assumptions C11_behaviour_unstripped_refuted_thm.
